@@ -2,7 +2,10 @@ package c16
 
 import (
 	"context"
+	"encoding/json"
+	"errors"
 	"fmt"
+	"io"
 	"strings"
 	"sync"
 
@@ -245,7 +248,7 @@ func (rt *gRoute) deliver(nodes []*gNode, prefix string, o gOpt, path []string) 
 	case n.Kind == "graph":
 		rt.deliver(n.Sub, prefix+n.Key+"/", o, nil)
 	case n.Kind == "pass":
-		rt.bad = o.Vals[0].Ty + "-option-for-passthrough"
+		rt.bad = map[string]string{"model": "chat-model", "A": "lambda", "B": "lambda"}[o.Vals[0].Ty] + "-option-for-passthrough"
 	default:
 		fits := 0
 		for _, v := range o.Vals {
@@ -352,10 +355,33 @@ func componentGapsCase(ctx context.Context, rep *mon.Reporter, rng *mon.Rand) {
 			switch t := rng.Intn(10); {
 			case t < 3 && o.Steps == 0: // undesignated
 			case t < 9:
+				// mostly nodes that can take the option (a node of the values' one type, a nested graph),
+				// else any node
+				var fit [][]string
+				for _, pth := range all {
+					n := byPath[strings.Join(pth, "/")]
+					ok := n.Kind == "graph"
+					if !ok && o.Steps == 0 && n.takes() != "" {
+						ok = true
+						for _, v := range o.Vals {
+							ok = ok && v.Ty == n.takes()
+						}
+					}
+					if ok {
+						fit = append(fit, pth)
+					}
+				}
 				for j, np := 0, 1+rng.Intn(2); j < np; j++ {
-					o.Paths = append(o.Paths, all[rng.Intn(len(all))])
+					if len(fit) > 0 && rng.Prob(0.7) {
+						o.Paths = append(o.Paths, fit[rng.Intn(len(fit))])
+					} else {
+						o.Paths = append(o.Paths, all[rng.Intn(len(all))])
+					}
 				}
 			default:
+				if !rng.Prob(0.5) {
+					break // undesignated after all (a step limit: designated to nothing, it is for the top-level graph)
+				}
 				p := append([]string(nil), all[rng.Intn(len(all))]...)
 				if rng.Bool() {
 					p[len(p)-1] = "nope"
@@ -376,7 +402,9 @@ func componentGapsCase(ctx context.Context, rep *mon.Reporter, rng *mon.Rand) {
 			if rt.bad != "" {
 				continue
 			}
-			if len(o.Paths) == 0 {
+			if len(o.Paths) == 0 && o.Steps > 0 {
+				rt.limits["<top>"] = o.Steps // an undesignated step limit is for the graph the call is made on, and for no nested graph
+			} else if len(o.Paths) == 0 {
 				rt.deliver(nodes, "", o, nil)
 			}
 			for _, p := range o.Paths {
@@ -394,7 +422,7 @@ func componentGapsCase(ctx context.Context, rep *mon.Reporter, rng *mon.Rand) {
 				if sr, runErr = r.Stream(ctx, in, opts...); runErr == nil {
 					for {
 						if _, e := sr.Recv(); e != nil {
-							if e.Error() != "EOF" {
+							if !errors.Is(e, io.EOF) {
 								runErr = e
 							}
 							break
@@ -409,7 +437,7 @@ func componentGapsCase(ctx context.Context, rep *mon.Reporter, rng *mon.Rand) {
 		rep.AddEvaluations(1)
 		rep.Count("component_graph_calls", 1)
 		wit := map[string]any{"graph": nodes, "options": os, "stream": stream}
-		desc := fmt.Sprintf("graph %s\noptions %s", mon.Canon(nodes), mon.Canon(os))
+		desc := fmt.Sprintf("graph %s\noptions %s", renderJSON(nodes), renderJSON(os))
 		if p != nil {
 			rep.Violation(ID+"/component-graph/panic", p.Value+"\n"+p.Stack+"\n"+desc, wit)
 			return
@@ -422,30 +450,41 @@ func componentGapsCase(ctx context.Context, rep *mon.Reporter, rng *mon.Rand) {
 			rep.Count("component_graph_rejected_"+rt.bad, 1)
 			continue
 		}
-		if overLimit(nodes, "", rt.limits) {
-			if !gspec.IsMaxSteps(runErr) {
-				rep.Violation(ID+"/component-graph/designated-step-limit-not-applied-to-nested-graph", fmt.Sprintf("a nested graph needs more steps than the limit designated to it allows, the call returned %v\n%s", runErr, desc), wit)
+		severalTypes := func(o gOpt) bool {
+			for _, v := range o.Vals {
+				if v.Ty != o.Vals[0].Ty {
+					return true
+				}
+			}
+			return false
+		}
+		anySeveral := false
+		for _, o := range os {
+			anySeveral = anySeveral || severalTypes(o)
+		}
+		l, topLimited := rt.limits["<top>"]
+		over := overLimit(nodes, "", rt.limits) || (topLimited && l < len(nodes))
+		if over && (runErr == nil || gspec.IsMaxSteps(runErr)) {
+			if runErr == nil {
+				rep.Violation(ID+"/component-graph/step-limit-not-applied-to-the-graph-it-addresses", fmt.Sprintf("a graph needs more steps than the limit addressed to it allows, yet the call succeeded\n%s", desc), wit)
 				return
 			}
-			rep.Count("component_graph_designated_step_limit_hit", 1)
+			rep.Count("component_graph_step_limit_hit", 1)
 			continue
 		}
 		if runErr != nil {
 			cl := "valid-call-failed"
-			for _, o := range os {
-				tys := map[string]bool{}
-				for _, v := range o.Vals {
-					tys[v.Ty] = true
-				}
-				if len(tys) > 1 {
-					cl = "one-option-with-values-of-several-types/valid-call-failed"
-				}
+			if anySeveral {
+				cl = "one-option-with-values-of-several-types/valid-call-failed"
 			}
 			if gspec.IsMaxSteps(runErr) {
-				cl = "designated-step-limit-stops-another-graph"
+				cl = "step-limit-stops-a-graph-it-does-not-address"
 			}
 			rep.Violation(ID+"/component-graph/"+cl, fmt.Sprintf("every value is of the type of the nodes it addresses, yet the call failed: %v\n%s", runErr, desc), wit)
 			return
+		}
+		if len(rt.limits) > 0 {
+			rep.Count("component_graph_step_limit_leaves_other_graphs_alone", 1)
 		}
 		rec.mu.Lock()
 		for _, pth := range all {
@@ -458,6 +497,28 @@ func componentGapsCase(ctx context.Context, rep *mon.Reporter, rng *mon.Rand) {
 			if strings.Join(got, ",") != strings.Join(want, ",") {
 				rec.mu.Unlock()
 				kindName := map[string]string{"model": "chat-model", "lamA": "lambda", "lamB": "lambda"}[n.Kind]
+				// is a value of an Option with values of several types concerned?
+				gset, wset := map[string]bool{}, map[string]bool{}
+				for _, x := range got {
+					gset[x] = true
+				}
+				for _, x := range want {
+					wset[x] = true
+				}
+				for _, o := range os {
+					if !severalTypes(o) {
+						continue
+					}
+					for _, v := range o.Vals {
+						if pl := v.Ty + ":" + v.ID; gset[pl] != wset[pl] {
+							kindName = "one-option-with-values-of-several-types/" + kindName
+							break
+						}
+					}
+					if strings.Contains(kindName, "/") {
+						break
+					}
+				}
 				rep.Violation(ID+"/component-graph/wrong-options/"+kindName, fmt.Sprintf("node %s (%s) received %v, the reference router delivers %v\n%s", ps, n.Kind, got, want, desc), wit)
 				return
 			}
@@ -465,7 +526,15 @@ func componentGapsCase(ctx context.Context, rep *mon.Reporter, rng *mon.Rand) {
 		}
 		rec.mu.Unlock()
 		if len(os) >= 2 {
-			rep.NonTrivial("component-graph|" + mon.Canon(nodes) + mon.Canon(os))
+			rep.NonTrivial("component-graph|" + renderJSON(nodes) + renderJSON(os))
 		}
 	}
+}
+
+func renderJSON(v any) string {
+	b, err := json.Marshal(v)
+	if err != nil {
+		return fmt.Sprint(v)
+	}
+	return string(b)
 }
